@@ -26,7 +26,48 @@ const (
 	findClass   = "tsig-class-not-any"    // DESIGN §4 #18
 	findFudge   = "tsig-fudge-zero"       // a Fudge of 0 on the wire is replaced by 300 before the MAC is computed
 	findReqMAC1 = "tsig-reqmac-one-octet" // a request MAC of exactly one octet: tsigBuffer's scratch buffer is one octet short
+	findDDDName = "tsig-name-ddd-upper"   // a key / algorithm name handed to TsigGenerate with an upper-case letter written as \DDD is digested unfolded
 )
+
+// dddUpper finds the \DDD escapes of s that denote an upper-case ASCII letter (\075 is a K) and
+// returns s with each of them replaced by the letter itself (the same name, spelled plainly).
+func dddUpper(s string) (plain string, n int) {
+	var sb strings.Builder
+	for i := 0; i < len(s); i++ {
+		if s[i] != '\\' || i+1 >= len(s) {
+			sb.WriteByte(s[i])
+			continue
+		}
+		if i+3 < len(s) && isDig(s[i+1]) && isDig(s[i+2]) && isDig(s[i+3]) {
+			v := int(s[i+1]-'0')*100 + int(s[i+2]-'0')*10 + int(s[i+3]-'0')
+			if v >= 'A' && v <= 'Z' {
+				sb.WriteByte(byte(v))
+				n++
+			} else {
+				sb.WriteString(s[i : i+4])
+			}
+			i += 3
+			continue
+		}
+		sb.WriteString(s[i : i+2]) // \c
+		i++
+	}
+	return sb.String(), n
+}
+
+func isDig(b byte) bool { return b >= '0' && b <= '9' }
+
+// spellTsigName writes a name of the TSIG variables (key name, algorithm name) the way a program may:
+// any octet as \DDD or \c. While the finding findDDDName reproduces, exactly its class - an upper-case
+// letter written as \DDD - is spelled plainly instead (counted).
+func spellTsigName(t *rapid.T, n wm.Name) string {
+	s := gen.SpellName(t, n)
+	if plain, k := dddUpper(s); k > 0 && pbt.Known(findDDDName) {
+		pbt.Excluded(findDDDName)
+		return plain
+	}
+	return s
+}
 
 // reqMACLens are the request-MAC lengths the generators draw from. The request MAC is whatever MAC
 // the previous message carried: HMACs are 20..64 octets, RFC 8945 truncation goes down to 10, a
@@ -185,6 +226,12 @@ func checkTsig(c tsigCase) (err error) {
 	classes := []string{"alg=" + lower(c.Alg), fmt.Sprintf("reqmac=%v", len(c.ReqMAC) > 0), fmt.Sprintf("reqmac>64=%v", len(c.ReqMAC) > 64), reqLenClass(len(c.ReqMAC)), fmt.Sprintf("timersonly=%v", c.TimersOnly),
 		fmt.Sprintf("refsigned=%v", c.RefSigned), sizeClass(len(packed)), fmt.Sprintf("compress=%v", c.Msg.Compress), fmt.Sprintf("error=%d", min(int(c.Error), 19)),
 		fmt.Sprintf("other=%v", len(c.Other) > 0), fmt.Sprintf("secretlen=%s", lenClass(len(c.Secret)))}
+	if strings.Contains(c.KeyName, "\\") {
+		classes = append(classes, "keyname-spelled-with-escapes")
+		if _, k := dddUpper(c.KeyName); k > 0 {
+			classes = append(classes, "keyname-upper-letter-as-ddd")
+		}
+	}
 	nontrivial := c.Msg.Records() >= 1
 	defer func() {
 		key := append([]byte(fmt.Sprintf("%s|%s|%x|%x|%v|%d|%d|%d|", c.KeyName, c.Alg, c.Secret, c.ReqMAC, c.TimersOnly, c.Fudge, c.Time, c.Error)), packed...)
@@ -235,6 +282,11 @@ func checkTsig(c tsigCase) (err error) {
 			want.OrigID = m.Id - c.IDDelta
 			ts.OrigId = want.OrigID
 			classes = append(classes, "libsigned-origid-differs")
+			if want.OrigID == 0 {
+				// a stub that was made before the message got its ID (SetTsig, then SetQuestion), or a
+				// hand-built one without OrigId
+				classes = append(classes, "libsigned-stub-origid-0")
+			}
 		}
 		var mac string
 		var gerr error
@@ -551,6 +603,9 @@ func checkTsig(c tsigCase) (err error) {
 	before = ref.AppendRR(before, ref.Labels{[]byte("x")}, 1, 1, 0, []byte{192, 0, 2, 1})
 	ref.SetARCount(before, ref.ARCount(out)+1)
 	alts = append(alts, alt{"TSIG followed by an A record, ARCOUNT raised", before, c.Secret, c.ReqMAC, c.TimersOnly})
+	// octets after the TSIG record are outside the message the header counts delimit: every decoder
+	// of the library ignores them, and so does the reference (classified by consensus, never asserted)
+	alts = append(alts, alt{"octets appended after the TSIG record", append(append([]byte(nil), out...), 0, 0, 250, 0, 255), c.Secret, c.ReqMAC, c.TimersOnly})
 	for _, a := range alts {
 		if len(a.msg) < 12 {
 			continue
@@ -694,6 +749,10 @@ func genTsig(t *rapid.T) tsigCase {
 	c.Msg = msgspec.Gen(t, msgspec.Opts{Big: true, ManyExtra: rapid.IntRange(0, 3).Draw(t, "many") == 0})
 	kn := gen.Name(t, gen.NameOpts{MaxLabs: 4, MaxLabel: 12, Plain: rapid.IntRange(0, 2).Draw(t, "plainkey") > 0})
 	c.KeyName = wm.EscName(kn)
+	if rapid.IntRange(0, 3).Draw(t, "spellkey") == 0 {
+		// the same name as a program may write it: letters and other octets as \DDD or \c
+		c.KeyName = spellTsigName(t, kn)
+	}
 	c.Alg = genAlg(t)
 	c.Secret = genSecret(t, "secret")
 	c.Secret2 = genSecret(t, "secret2")
@@ -711,6 +770,9 @@ func genTsig(t *rapid.T) tsigCase {
 	c.RefSigned = rapid.IntRange(0, 2).Draw(t, "refsigned") == 0
 	if rapid.IntRange(0, 2-btoi(c.RefSigned)).Draw(t, "otherid") == 0 {
 		c.IDDelta = rapid.Uint16Range(1, 65535).Draw(t, "iddelta")
+		if !c.RefSigned && c.Msg.ID != 0 && rapid.IntRange(0, 3).Draw(t, "origid0") == 0 {
+			c.IDDelta = c.Msg.ID // the stub's OrigId is 0: it was made before the message got its ID
+		}
 	}
 	c.StaleStub = rapid.IntRange(0, 2).Draw(t, "stalestub") == 0
 	if !c.RefSigned {
@@ -772,6 +834,12 @@ func init() {
 		c := simple
 		c.SkipClass, c.SkipFudge0 = true, true
 		c.ReqMAC = []byte{0xab}
+		return checkTsig(c)
+	})
+	// the breaker's input: m.SetTsig(`\075ey.`, ...) - the key name Key. with its K written as \075
+	pbt.Probe(findDDDName, func() error {
+		c := simple
+		c.KeyName = `\075ey.`
 		return checkTsig(c)
 	})
 }
